@@ -164,6 +164,13 @@ def cases(tier, seed):
                         if grid[0] == grid[1] or True:
                             for pb in ("dense", "one0", "sparse"):
                                 out.append(dict(grids=(grid,), k=k, pats=(pa, pb), herm=herm, ro=ro, kind="AdBA"))
+    # factors whose absent elements are *declared* (explicit zero in the initial data) instead of discovered by evaluation
+    for grids in GRIDS2[:2]:
+        for k in (1, 2):
+            for pats in itertools.product(("dense", "zero0", "sparse", "first"), repeat=2):
+                for ro in ("asc", "desc"):
+                    out.append(dict(grids=grids, k=k, pats=pats, herm=False, ro=ro, kind="plain", declared=True))
+    out.append(dict(grids=((1, 1), (1, 1)), k=1, pats=("dense", "dense"), herm=False, ro="asc", kind="delay-kernel"))
     # custom element multiplication (element-wise product of equal blocks; scalar blocks with operator.mul)
     for nf in (2, 3, 4):
         for opname in ("np.multiply", "mul-scalars"):
@@ -256,9 +263,42 @@ def run_custom_op(case):
                 outcome="ok" if not V else "violation", stats=dict(elements_compared=compared), sample=case)
 
 
+def run_delay_kernel(case):
+    """A recurrent definition S[n] = c + (S @ B)[n + 2] whose kernel B has its orders 0..2 declared
+    absent is well-founded only because a factor order is never requested when its complement is absent."""
+    from pymablock.series import BlockSeries, cauchy_dot_product, zero
+
+    B = BlockSeries(data={(0, 0, n): zero for n in range(3)}, eval=lambda i, j, n: np.array([[float(n)]]) if n < 6 else zero,
+                    shape=(1, 1), n_infinite=1, name="B")
+    S = BlockSeries(shape=(1, 1), n_infinite=1, name="S")
+    P = cauchy_dot_product(S, B)
+    S.eval = lambda i, j, n: np.array([[1.0]]) + (P[0, 0, n + 2] if P[0, 0, n + 2] is not zero else 0.0)
+    V = []
+    # reference: S[n] = 1 + sum_{m=3..n+2} S[n+2-m] * m   (B[m] = m for 3 <= m < 6)
+    ref = {}
+    for n in range(5):
+        tot = 1.0
+        for m in range(3, n + 3):
+            if m < 6:
+                tot += ref[n + 2 - m] * m
+        ref[n] = tot
+    for n in range(5):
+        try:
+            got = S[0, 0, n]
+        except Exception as e:  # noqa: BLE001
+            V.append(f"well-founded recurrent definition S[n] = 1 + (S @ B)[n+2] (B[0..2] declared absent) raises {type(e).__name__} at n={n}: {str(e)[:80]}")
+            break
+        if abs(float(np.asarray(got).ravel()[0]) - ref[n]) > 1e-9:
+            V.append(f"recurrent definition: S[{n}] = {got} != {ref[n]}")
+    return dict(violations=[dict(what=w, key=None) for w in V[:2]], nontrivial=True, outcome="ok" if not V else "violation",
+                stats=dict(elements_compared=5), sample=case)
+
+
 def run_case(case):
     if case["kind"] == "custom-op":
         return run_custom_op(case)
+    if case["kind"] == "delay-kernel":
+        return run_delay_kernel(case)
     from pymablock.series import BlockSeries, cauchy_dot_product, one, zero
 
     k = case["k"]
@@ -300,6 +340,18 @@ def run_case(case):
 
         models = [mAd, (lambda i, j, n: herm_B_value((i, j, *n), pats[1], k)), mA]
         mgrids = [(g[1], g[0]), (g[0], g[0]), g]
+    declared = bool(case.get("declared"))
+    if declared:
+        # re-create the factors with their absent elements declared in the initial data
+        bound_d = 3 if k == 1 else 2
+        new_facs = []
+        for t, f in enumerate(facs):
+            data = {}
+            for idx_d in itertools.product(range(f.shape[0]), range(f.shape[1]), *[range(bound_d + 3)] * k):
+                if models[t](idx_d[0], idx_d[1], tuple(idx_d[2:])) is None:
+                    data[idx_d] = zero
+            new_facs.append(BlockSeries(eval=f.eval, data=data, shape=f.shape, n_infinite=k, name=f.name))
+        facs = new_facs
     if case.get("objdtype"):
         for f in facs:
             inner = f.eval
@@ -374,7 +426,7 @@ def run_case(case):
                 else:
                     other = models[0](i, a_i, comp)
                     first_eval = cost(a_n) < cost(comp)
-                if other is None and not first_eval:
+                if other is None and (declared or not first_eval):
                     V.append(f"request {list(idx)}: factor {tag} evaluated at {entry[1:]} although the complementary order {comp} of the other factor is absent")
     # the factors' cached values must be untouched by the product evaluation
     for t, (f, model) in enumerate(zip(facs, models)):
